@@ -22,11 +22,20 @@ STD = {"net/http": ("http", "Request"), "sync": ("sync", "Mutex")}
 NAME_POOL = ["x", "x1", "x10", "ret", "ok", "http", "http0", "http1", "model", "model0", "model1", "sync", "v", "returnFunc", "_", ""]
 
 
-def gen_source(rng):
+FIXED_SOURCES = {
+    # a method without parameters and results after one that brings in an import; the same across two interfaces
+    "noparams-after-import": ({"net/http": "s0", "example.com/m/a/model": "i0"},
+                              [("I0", [("M0", [("r", "*s0.Request")]), ("M1", []), ("M2", [("x", "int")])]), ("I1", [("M0", []), ("M1", [("m", "i0.T")]), ("M2", [])])]),
+}
+
+
+def gen_source(rng, fixed=None):
     """A source package whose methods mention several same-named packages."""
     imports = {}
     ifaces = []
-    for ii in range(rng.randint(1, 3)):
+    if fixed:
+        imports, ifaces = dict(FIXED_SOURCES[fixed][0]), list(FIXED_SOURCES[fixed][1])
+    for ii in range(rng.randint(1, 3) if not fixed else 0):
         methods = []
         for mi in range(rng.randint(1, 4)):
             params = []
@@ -48,13 +57,13 @@ def gen_source(rng):
                 params.append((name, typ))
             # Go forbids mixing named and unnamed, and duplicate names
             seen = set()
-            fixed = []
+            fx = []
             for k, (n, t) in enumerate(params):
                 if n in ("", "_") or n in seen:
                     n = "_"
                 seen.add(n)
-                fixed.append((n, t))
-            methods.append(("M%d" % mi, fixed))
+                fx.append((n, t))
+            methods.append(("M%d" % mi, fx))
         ifaces.append(("I%d" % ii, methods))
     lines = ["package p", ""]
     if imports:
@@ -73,11 +82,13 @@ def gen_source(rng):
     return files, ifaces
 
 
-def gen_probe(rng, ifaces):
+def gen_probe(rng, ifaces, fixed=None):
     out = []
     import_pool = [("model", "example.com/m/a/model"), ("model", "example.com/m/b/model"), ("model", "example.com/m/c/model"),
                    ("model", "example.com/x/other/model"), ("http", "net/http"), ("http", "example.com/m/e/http"), ("http0", "example.com/m/d/http0"),
-                   ("sync", "sync"), ("sync", "example.com/m/f/sync"), ("model0", "example.com/m/g/model0"), ("fmt", "fmt"), ("p", "example.com/m/p")]
+                   ("sync", "sync"), ("sync", "example.com/m/f/sync"), ("model0", "example.com/m/g/model0"), ("fmt", "fmt"), ("p", "example.com/m/p"),
+                   # the same package once with and once without a vendor prefix: two distinct import paths
+                   ("model", "example.com/m/vendor/example.com/m/a/model"), ("sync", "vendor/sync"), ("model", "example.com/m/a/model/v2")]
     out.append("{{- /* generated probe */ -}}")
     imports_ev = 'EV {"file":"f","op":"imports","list":[{{range $.Imports}}["{{.Path}}","{{.Qualifier}}"],{{end}}["~~~~","~~~~"]]}'
     out.append(imports_ev)
@@ -87,6 +98,11 @@ def gen_probe(rng, ifaces):
             m = "(index (index $.Interfaces %d).Methods %d)" % (ii, mi)
             out.append('EV {"scope":"%s","op":"rawinit","names":[{{range %s.Params}}"{{.Var.Name}}",{{end}}"~"],"types":[{{range %s.Params}}"{{.TypeString}}",{{end}}"~"]}' % (sid, m, m))
             pool = [n for n, _ in params if n not in ("", "_")] + ["x", "ret", "ok", "http", "model", "model0", "sync", "http0", "i0", "s0"]
+            if fixed:
+                # every qualifier the file can have is probed and then requested in every scope, before any random operation
+                for a in ("http", "model", "sync"):
+                    out.append('EV {"scope":"%s","op":"exists","arg":"%s","bool":{{ %s.Scope.NameExists "%s" }}}' % (sid, a, m, a))
+                    out.append('EV {"scope":"%s","op":"alloc","arg":"%s","res":"{{ %s.Scope.AllocateName "%s" }}"}' % (sid, a, m, a))
             for _ in range(rng.randint(4, 14)):
                 a = rng.choice(pool)
                 if rng.random() < 0.4:
@@ -116,9 +132,9 @@ QUAL_RE = re.compile(r"\b([A-Za-z_][A-Za-z0-9_]*)\.")
 def eval_probe(ctx, case):
     import random
     rng = random.Random(case["seed"])
-    files, ifaces = gen_source(rng)
+    files, ifaces = gen_source(rng, case.get("fixed"))
     in_pkg = case["in_package"]
-    files["probe.templ"] = gen_probe(rng, ifaces)
+    files["probe.templ"] = gen_probe(rng, ifaces, case.get("fixed"))
     cfg = {"template": "file://probe.templ", "require-template-schema-exists": False, "formatter": "noop", "all": True,
            "dir": "p" if in_pkg else "out", "filename": "probe_out.txt", "pkgname": "p" if in_pkg else "out",
            "packages": {"example.com/m/p": {}}}
@@ -136,6 +152,7 @@ def eval_probe(ctx, case):
         return Verdict.inconclusive("probe template failed: " + r.err[-800:])
     outp = os.path.join(root, "p" if in_pkg else "out", "probe_out.txt")
     evs = []
+    file_quals = set()   # qualifiers of the packages that the signatures processed so far have brought into the file (scopes are created in this order)
     for line in open(outp, errors="replace"):
         if not line.startswith("EV "):
             continue
@@ -148,7 +165,10 @@ def eval_probe(ctx, case):
             quals = set()
             for t in e["types"]:
                 quals.update(QUAL_RE.findall(t))
-            e = {"scope": e["scope"], "op": "init", "names": names + sorted(quals)}
+            # an import qualifier is visible in every function body of the file: those registered before this scope was created
+            # (by earlier methods and interfaces of the same output file) are names visible in it, like the ones of its own signature
+            file_quals |= quals
+            e = {"scope": e["scope"], "op": "init", "names": names + sorted(file_quals)}
             if len(set(names)) != len(names) or set(names) & quals:
                 return Verdict.violated("scope %s: parameter names %s collide with each other or with qualifiers %s used in the same signature"
                                         % (e["scope"], names, sorted(quals)), {"types": t})
@@ -204,13 +224,15 @@ def body(ctx, replay=None):
                 "without SuggestName; probe cases: generated file:// template performing such histories on real methods through the real binary. "
                 "non-trivial = >= 6 monitored events; distinct = case hash (evidence also reports distinct result sequences)")
     ctx.assumptions = ["AddName cannot be called from a template (no result), so P1 histories use Allocate/Suggest/NameExists/AddImport/Imports/PkgQualifier",
-                       "for P1 scopes the names 'visible by construction' are the method's parameter names and the qualifiers occurring in its own type strings",
+                       "for P1 scopes the names 'visible by construction' are the method's parameter names and the qualifiers occurring in its own type strings "
+                       "and in the type strings of the methods and interfaces processed before it for the same output file",
                        "no particular suffix scheme is asserted"]
     if replay is not None:
         cases = [replay]
     else:
         nb, per, npr = (16, 4000, 40) if ctx.tier == "quick" else (32, 16000, 300)
         cases = [{"kind": "gen", "seed": ctx.seed * 1009 + i, "histories": per} for i in range(nb)]
+        cases += [{"kind": "probe", "seed": 4242 + j, "in_package": False, "fixed": f} for f in sorted(FIXED_SOURCES) for j in range(2)]
         cases += [{"kind": "probe", "seed": ctx.seed * 7919 + j, "in_package": j % 3 == 0} for j in range(npr)]
     ctx.run_cases(cases, eval_case)
     return ctx.finish()
